@@ -131,7 +131,8 @@ class State:
             token = ("token", t)
         else:
             import torch
-            token = torch.full((1,), float(t))
+            # a third of the user functions answer with a plain list (DomainUserFunction turns it into a tensor)
+            token = [float(t)] if t % 3 == 0 else torch.full((1,), float(t))
         self.hits.append((fn, kw, token))
         return token
 
@@ -194,10 +195,12 @@ class State:
             c = torch.tensor([[CONST0 + fn, CONST0 + fn]])
         elif kind == "t64":
             c = torch.tensor([[CONST0 + fn + 1.0 / 3.0]], dtype=torch.float64)     # not representable in float32
+        elif kind == "list":
+            c = [CONST0 + fn, CONST0 + fn]
         else:
             c = CONST0 + fn
         self.consts[fn] = c
-        if kind != "float":
+        if kind in ("t32", "t64"):
             self.constkey[tkey(c)] = fn
         return c
 
@@ -209,7 +212,7 @@ class State:
             import torch
             if isinstance(x, torch.Tensor) and tkey(x) in self.constkey:
                 return self.constkey[tkey(x)]
-            val = float(x.flatten()[0]) if isinstance(x, torch.Tensor) else float(x)
+            val = float(x.flatten()[0]) if isinstance(x, torch.Tensor) else float(x[0] if isinstance(x, list) else x)
             r = val - CONST0
             return int(r) if r.is_integer() else f"<{val}>"
         except Exception:
@@ -252,9 +255,50 @@ class State:
 
 
 def env_snapshot(env):
-    if isinstance(env, dict):
-        return [(k, showval(v), id(v)) for k, v in env.items()]
+    import collections
+    import collections.abc
+    if isinstance(env, collections.ChainMap):
+        return ("ChainMap", [[(k, showval(v), id(v)) for k, v in m.items()] for m in env.maps])
+    if isinstance(env, collections.abc.Mapping):
+        return (type(env).__name__, [(k, showval(v), id(v)) for k, v in env.items()])
     return (list(env.space.keys()), str(env.as_tensor.dtype), env.as_tensor.tolist())   # Points
+
+
+MAP_KINDS = ["odict", "proxy", "chain", "defaultdict", "missing", "getter", "omitted"]
+
+
+def build_mapping(st, pairs, kind, fb):
+    """the KIND of mapping handed to a call.  fb = identifier of what m[k] answers for an absent key"""
+    import collections
+    import types
+    plain = {name: mkval(v, st.mode) for name, v in pairs}
+    if kind == "odict":
+        return collections.OrderedDict(plain)
+    if kind == "proxy":
+        return types.MappingProxyType(plain)
+    if kind == "chain":
+        items = list(plain.items())
+        return collections.ChainMap(dict(items[::2]), dict(items[1::2]))
+    fallback = mkval(fb, st.mode) if fb else (0 if st.mode == "int" else register(__import__("torch").zeros(1, 1), 0))
+    if kind == "defaultdict":
+        return collections.defaultdict((lambda: fallback), plain)
+
+    class Lenient(dict):            # a parameter table that answers unknown names itself, without storing them
+        def __missing__(self, key):
+            return fallback
+
+    class Getter(dict):             # overridden observers that agree with dict (get has a fallback, [] has none)
+        def __contains__(self, key):
+            return dict.__contains__(self, key)
+
+        def get(self, key, default=None):
+            return dict.get(self, key, fallback)
+
+    if kind == "missing":
+        return Lenient(plain)
+    if kind == "getter":
+        return Getter(plain)
+    raise common.HarnessTrouble(f"unknown mapping kind {kind}")
 
 
 def build_env(st, pairs, as_points):
@@ -360,6 +404,8 @@ def run_op(st, op, idx, problems):
             w = st.cls(f)
             st.ws.append(w); st.origin[len(st.ws) - 1] = ("wf", None)
             out = f"w{len(st.ws) - 1}"
+            if hasattr(f, "__name__") and w.__name__() != f.__name__:
+                problems.append(f"{where}: wrapper.__name__() is {w.__name__()!r}, the function is called {f.__name__!r}")
             # oracle: required names / declared defaults of a freshly wrapped function
             n, m = len(names), len(dflts)
             want_req, want_def = names[:n - m], {names[n - m + j]: dflts[j] for j in range(m)}
@@ -391,7 +437,12 @@ def run_op(st, op, idx, problems):
             out = f"w{len(st.ws) - 1}"
         elif kind == "rw":
             src = st.ws[op[1]]
-            w = copy.copy(src) if (len(op) > 2 and op[2] == "copy") else st.cls(src)
+            if len(op) > 2 and op[2] == "copy":
+                w = copy.copy(src)
+            elif len(op) > 2 and op[2] == "cross":       # a UserFunction re-wrapped as DomainUserFunction and vice versa
+                w = (st.mod.UserFunction if isinstance(src, st.mod.DomainUserFunction) else st.mod.DomainUserFunction)(src)
+            else:
+                w = st.cls(src)
             st.ws.append(w); st.origin[len(st.ws) - 1] = ("rw", op[1])
             out = f"w{len(st.ws) - 1}"
         elif kind == "dc":
@@ -412,6 +463,9 @@ def run_op(st, op, idx, problems):
                 env_obj = car["obj"]
                 env_map = stored_slices(env_obj, car["dims"])
                 op[2] = pairs = [[name, vid(t)] for name, t in env_map.items()]
+            elif kind == "ca" and len(op) > 4 and op[3] == "map":
+                env_obj = {} if op[4] == "omitted" else build_mapping(st, pairs, op[4], op[5] if len(op) > 5 else 0)
+                env_map = env_obj
             else:
                 env_obj, dims = build_env(st, pairs, as_points)
                 env_map = stored_slices(env_obj, dims) if dims is not None else env_obj
@@ -419,13 +473,22 @@ def run_op(st, op, idx, problems):
             env_before = env_snapshot(env_obj)
             exc = None
             try:
-                res = w(env_obj) if kind == "ca" else w.partially_evaluate(**env_obj)
+                if kind == "pe":
+                    res = w.partially_evaluate(**env_obj)
+                elif len(op) > 4 and op[3] == "map" and op[4] == "omitted":
+                    res = w()                                   # the default of the `args` parameter
+                elif isinstance(w, st.mod.DomainUserFunction) and isinstance(env_obj, dict) and len(pairs) % 2 == 1:
+                    res = w(env_obj, device="cpu")
+                else:
+                    res = w(env_obj)
             except Exception as e:
                 exc, res = e, None
             new_hits = st.hits[hits0:]
             if env_snapshot(env_obj) != env_before:
                 problems.append(f"{where}: the mapping/Points passed in was changed: {env_before} -> {env_snapshot(env_obj)}")
             out = judge_eval(st, w, kind, op, env_map, defaults_before, exc, res, new_hits, problems, where)
+            if kind == "ca" and len(op) > 4 and op[3] == "map":
+                out += " M" + showdict(dict(env_obj.items()))      # the user's mapping after the call
         elif kind == "cv":
             out = run_vectorized(st, op, hits0, problems, where)
         elif kind == "sd":
@@ -444,7 +507,10 @@ def run_op(st, op, idx, problems):
         elif kind == "rd":
             w = st.ws[op[1]]
             try:
-                w.remove_default(*op[2])
+                if len(op) > 3 and op[3] == "kw":
+                    w.remove_default(**{k: None for k in op[2]})
+                else:
+                    w.remove_default(*op[2])
                 out = "u"
             except KeyError:
                 out = "e:keyerror"
@@ -592,6 +658,8 @@ def judge_eval(st, w, kind, op, env, defaults_before, exc, res, new_hits, proble
             ok = res is c
         elif isinstance(c, torch.Tensor):
             ok = isinstance(res, torch.Tensor) and res.dtype == c.dtype and res.shape == c.shape and torch.equal(res, c)
+        elif isinstance(c, list):
+            ok = isinstance(res, torch.Tensor) and res.dtype == torch.float32 and res.tolist() == [float(x) for x in c]
         else:
             ok = isinstance(res, torch.Tensor) and res.dtype == torch.float32 and res.numel() == 1 and float(res) == float(c)
         if not ok:
@@ -668,6 +736,16 @@ class Gen:
         m = rng.randint(0, n)
         return names, [self.v() for _ in range(m)]
 
+    def with_mapping(self, op):
+        """hand the environment over as some other kind of mapping than a plain dict (45 %)"""
+        rng = self.rng
+        if rng.random() < 0.55:
+            return op
+        kind = rng.choice(["odict", "proxy", "chain", "defaultdict", "defaultdict", "defaultdict", "missing", "missing", "getter"]
+                          + (["omitted"] if not op[2] else []))
+        fb = rng.choice([0, self.v(), self.v()]) if kind in ("defaultdict", "missing", "getter") else 0
+        return op[:3] + ["map", kind, fb]
+
     def env_for(self, w, cover=0.85, extras=True):
         """mostly a superset of the required names, shuffled; sometimes one required name is missing"""
         rng = self.rng
@@ -703,7 +781,8 @@ class Gen:
                 if st.carriers:
                     kinds += ["pt"] * 5 + ["cc"] * 3
         kind = rng.choice(kinds)
-        if kind == "cv" and not callable(st.ws[-1].fun) and all(not callable(w.fun) for w in st.ws):
+        vec_ok = [i for i, x in enumerate(st.ws) if callable(x.fun) and not isinstance(x, st.mod.DomainUserFunction)]
+        if kind == "cv" and not vec_ok:
             kind = "ca"
         if kind == "wf":
             names, dflts = self.signature()
@@ -731,7 +810,7 @@ class Gen:
                 op.append(inner)
             return op
         if kind == "wc":
-            ck = rng.choice(["float", "float", "t32", "t64"])
+            ck = rng.choice(["float", "float", "t32", "t64", "list"])
             return ["wc", next(self.fn)] + ([ck] if ck != "float" else [])
         if kind == "np":
             cand = [i for i, w in enumerate(st.ws) if callable(w.fun)]
@@ -782,18 +861,18 @@ class Gen:
             return ["we", next(self.fn), names, j]
         r = rng.randrange(nw) if rng.random() < 0.5 else nw - 1 - min(nw - 1, rng.choice([0, 0, 1, 2]))
         w = st.ws[r]
-        if kind == "cv" and not callable(w.fun):
-            r = next(i for i, x in enumerate(st.ws) if callable(x.fun))
+        if kind == "cv" and r not in vec_ok:
+            r = rng.choice(vec_ok)
             w = st.ws[r]
         if kind == "rw":
-            return ["rw", r, rng.choice(["wrap", "wrap", "copy"])]
+            return ["rw", r, rng.choice(["wrap", "wrap", "copy"] + (["cross"] if self.mode != "int" else []))]
         if kind == "dc":
             return ["dc", r]
         if kind == "ca":
             env = self.env_for(w)
-            if self.mode == "points" and env and rng.random() < 0.7:
+            if self.mode == "points" and env and rng.random() < 0.6:
                 return ["ca", r, env, "points"]
-            return ["ca", r, env]
+            return self.with_mapping(["ca", r, env])
         if kind == "cv":
             env = self.env_for(w, cover=0.9)
             B = rng.choice([1, 2, 3, 5])
@@ -830,7 +909,7 @@ class Gen:
                 rng.shuffle(rho)
                 merged = rho + [kv for kv in sigma if kv[0] not in dict(rho)]
                 rng.shuffle(merged)
-                self.pending = [["ca", "new", rho], ["ca", r, merged]]
+                self.pending = [self.with_mapping(["ca", "new", rho]), self.with_mapping(["ca", r, merged])]
                 return ["pe", r, sigma]
             return ["pe", r, self.env_for(w, cover=0.8)]
         if kind == "sd":
@@ -850,7 +929,8 @@ class Gen:
             ks = rng.sample(cand, min(len(cand), rng.choice([1, 1, 2]))) if cand else []
             if rng.random() < 0.25:
                 ks.append(rng.choice(self.pool))
-            return ["rd", r, ks]
+            ks = list(dict.fromkeys(ks))
+            return ["rd", r, ks] + (["kw"] if rng.random() < 0.4 else [])
         return None
 
 
@@ -876,6 +956,13 @@ def op_line(op):
         return f"rw {op[1]}"
     if k == "dc":
         return f"dc {op[1]}"
+    if k == "ca" and len(op) > 4 and op[3] == "map":
+        kind, fb = op[4], (op[5] if len(op) > 5 else 0)
+        if kind == "omitted":
+            return f"cm {op[1]} 0 -1 0"
+        if kind in ("defaultdict", "missing"):
+            return f"cm {op[1]} {d(op[2])} {fb} {1 if kind == 'defaultdict' else 0}"
+        return f"cm {op[1]} {d(op[2])} -1 0"
     if k in ("ca", "pe", "sd"):
         return f"{k} {op[1]} {d(op[2])}"       # a call with a carrier: op[2] was filled in when it was executed
     if k == "cv":
@@ -895,6 +982,16 @@ def model_line(case):
 
 
 CORPUS = [
+    # the KIND of mapping: a defaultdict / a dict subclass with __missing__ answers absent names itself; the wrapper
+    # must ask `in` first, bind its own defaults and leave the container alone
+    dict(cls="UserFunction", mode="int", ops=[["wf", 0, ["a", "b", "c"], [1, 2]], ["ca", 0, [["a", 5]], "map", "defaultdict", 0],
+                                              ["ca", 0, [["c", 6], ["a", 7]], "map", "missing", 9], ["pe", 0, [["b", 8]]],
+                                              ["ca", 0, [], "map", "defaultdict", 3], ["wf", 1, ["a"], [4]], ["ca", 1, [], "map", "omitted"],
+                                              ["ca", 0, [["a", 5], ["q", 1]], "map", "chain"], ["ca", 0, [["a", 5]], "map", "proxy"],
+                                              ["ca", 0, [["b", 2], ["a", 5]], "map", "odict"], ["ca", 0, [["a", 5]], "map", "getter", 10]]),
+    dict(cls="DomainUserFunction", mode="tensor", ops=[["wf", 0, ["t", "k", "shift"], [2, 10]], ["pe", 0, [["k", 3]]],
+                                                       ["ca", 1, [["t", 4]], "map", "defaultdict", 0], ["ca", 0, [["t", 4], ["k", 3]], "map", "missing", 5],
+                                                       ["rw", 0, "cross"], ["ca", 2, [["t", 6]]], ["wc", 1, "list"], ["ca", 3, []], ["rd", 0, ["k"], "kw"]]),
     # keyword-only parameters: positional defaults belong to the last POSITIONAL names, kw-only defaults to their own names
     dict(cls="UserFunction", mode="int", ops=[["wf", 0, ["x", "y"], [1], "kwonly", [["z", "w"], [["z", 3]]]], ["ca", 0, [["w", 7], ["x", 5]]],
                                               ["ca", 0, [["x", 5]]], ["pe", 0, [["w", 8]]], ["ca", 1, [["x", 9], ["z", 10]]]]),
@@ -976,6 +1073,12 @@ def classify(rep, case, lines):
             rep.count("vectorized batch size " + out.split("/")[1].split("[")[0])
         if op[0] == "ca" and len(op) > 3:
             rep.count("call with Points" + (" that has a history" if op[3] == "carrier" else ""))
+        if op[0] == "ca" and len(op) > 4 and op[3] == "map":
+            rep.count("mapping kind:" + op[4])
+        if op[0] == "rd" and len(op) > 3:
+            rep.count("remove_default(**kwargs)")
+        if op[0] == "rw" and len(op) > 2:
+            rep.count("re-wrap:" + op[2])
         if op[0] == "wc":
             rep.count("constant kind:" + (op[2] if len(op) > 2 else "float"))
         if op[0] == "wf":
